@@ -297,7 +297,9 @@ class Interp:
     def st_AnnAssign(self, st, frame):
         if st.value is None:
             return
-        self.assign(st.target, self.eval(st.value, frame), frame)
+        v = self.eval(st.value, frame)
+        v = self.materialize_container(v, [st.target], frame)
+        self.assign(st.target, v, frame)
 
     def st_AugAssign(self, st, frame):
         tg = st.target
@@ -705,9 +707,22 @@ class Interp:
                 parts.append(self.bm.format_value(v, p.conversion, spec))
         if len(parts) == 1:
             return parts[0]
+        # keep the structure of the formatted string (used by the model of
+        # date.fromisoformat for 'YYYY-MM-DD' strings built from integers)
+        tmpl = []
+        for p in parts:
+            if isinstance(p, VStr) and p.tmpl is not None:
+                tmpl.extend(p.tmpl)
+            elif isinstance(p, VStr):
+                sp = z3.simplify(p.t)
+                tmpl.append(("lit", sp.as_string()) if z3.is_string_value(sp)
+                            else ("str", p.t))
+            else:
+                tmpl.append(("?", None))
         if all(isinstance(p, VStr) for p in parts):
-            return VStr(z3.Concat(*[p.t for p in parts]))
-        return self.bm.fresh_str("fstr")
+            return VStr(z3.Concat(*[p.t for p in parts]), tmpl)
+        r = self.bm.fresh_str("fstr")
+        return VStr(r.t, tmpl)
 
     def ev_ListComp(self, e, frame):
         return VList(list(self.comp_iter(e.elt, e.generators, frame)))
@@ -845,6 +860,13 @@ class Interp:
         if v.klass == "TypeRegistry" and name == "_item_list" and \
                 isinstance(res, VObj):
             res = VObj(res.t, "List:cls_buckets")
+        if sk == "MoneyConverter" and name == "_type_of_validity" and \
+                isinstance(res, VInt):
+            # the field holds a type object, stored as a code
+            for cname, code in M.TYPE_CODES.items():
+                if self.path.branch(res.t == code):
+                    return VClass(cname)
+            raise Unsupported("unknown type code")
         return res
 
     def setattr(self, obj: V, name: str, val: V, frame=None) -> None:
